@@ -23,7 +23,7 @@ ALLOWED_AXIOMS = {'propext', 'Classical.choice', 'Quot.sound'}
 TRUSTED_BASE = [
     'Lean 4.33.0 kernel (lake build; thorough tier: leanchecker re-check of the .olean files)',
     'axioms: propext, Classical.choice, Quot.sound only (audited with #print axioms on every property theorem; no sorry, no native_decide, no bv_decide)',
-    'the hand-written Lean model of fastPASTA (lean/FastPasta/Model); tied to /repo by the correspondence check (differential execution on generated inputs), which samples; the state machine step, the ALPIDE byte decoder and the word-level functions (loaders, accessors, status/data-word sanity checks, lane mapping, view byte predicates) are in addition TRANSLATED from the Rust source on every run (tools/src2lean.py, alpide2lean.py, rs2lean.py -> Spec/*SrcGen.lean) and proved equal to the model (Proofs/*SrcTie.lean) - there the translators are what is trusted',
+    'the hand-written Lean model of fastPASTA (lean/FastPasta/Model); tied to /repo by the correspondence check (differential execution on generated inputs), which samples; the state machine step, the ALPIDE byte decoder and the word-level functions (loaders, accessors, status/data-word sanity checks, lane mapping, view byte predicates) are in addition TRANSLATED from the Rust source on every run (tools/src2lean.py, alpide2lean.py, rs2lean.py, stats2lean.py -> Spec/*SrcGen.lean) and proved equal to the model (Proofs/*SrcTie.lean) - there the translators are what is trusted',
     'the specification side (lean/FastPasta/Spec, statements in lean/FastPasta/Props) is a reading of doc/checks_list.md, the diagram, README and the property text',
     'rustc/std, clap, serde_json, toml, regex, flume, crossbeam-channel and the OS are assumed correct',
     'tools/*.py, harness/ (generators, canonicaliser, oracles) are trusted test code',
@@ -103,6 +103,14 @@ def build_lean(modules):
                 open(gen, 'w').write('import FastPasta.Spec.RsPrelude\n/- ' + msg + f' -/\nnamespace FastPasta\nnamespace {ns}\n'
                                      'theorem source_not_translatable : False := by decide\nend ' + ns + '\nend FastPasta\n')
                 tlog += out0
+        # which statistics the comparison of C15 looks at (tools/stats2lean.py): field lists and the shapes of the validate_other chain
+        gen = os.path.join(LEAN, 'FastPasta', 'Spec', 'StatsSrcGen.lean')
+        rc0, out0 = sh([sys.executable, os.path.join(ROOT, 'tools', 'stats2lean.py'), gen])
+        if rc0 != 0:
+            msg = out0.strip().replace('\n', ' ')[:400].replace('-/', '- /')
+            open(gen, 'w').write('/- ' + msg + ' -/\nnamespace FastPasta\nnamespace SrcStats\n'
+                                 'theorem source_not_translatable : False := by decide\nend SrcStats\nend FastPasta\n')
+            tlog += out0
         rc, out = sh(['lake', 'build', 'fpdriver'] + list(modules), cwd=LEAN, timeout=3600)
         return rc == 0, tlog + out
 
